@@ -406,6 +406,8 @@ UnmarshalEv(e) ==
              /\ Chk(e, "C07", "prefix_raises_only_UnmarshalingException", o.r = "exc" /\ o.lib /\ o.type = "UnmarshalingException")
         ELSE TRUE)
     /\ Chk(e, "C06", "envelope_truth", okc => EnvelopeTruth(b, o))
+    /\ Chk(e, "C18", "frame_followed_by_more_bytes",
+           wf => (okc /\ o.n = spec.n /\ o.ch = spec.ch /\ SameDecoded(spec.f, o.f)))
     /\ Chk(e, "C06", "valid_frame_decoded_exactly",
            wf => (okc /\ o.n = spec.n /\ o.ch = spec.ch /\ SameDecoded(spec.f, o.f)))
     /\ Chk(e, "C16", "concurrent_decode_is_pure",
@@ -639,10 +641,10 @@ ConnFrame(e) ==
     /\ Chk(e, "C06", "session_consumed_is_frame_length", scripted /\ e.wire = e.mlen)
     /\ Chk(e, "C20", "session_consumed_is_frame_length", scripted /\ e.wire = e.mlen)
     \* what the decoder reports is a legal next step of the protocol machine (sizes as measured on the real wire)
-    /\ Chk(e, "C06", "session_stays_legal", ConnLegal(st.conn, got))
-    /\ Chk(e, "C18", "session_stays_legal", ConnLegal(st.conn, got))
-    /\ Chk(e, "C20", "session_stays_legal", ConnLegal(st.conn, got))
-    /\ Chk(e, "C14", "session_stays_legal", ConnLegal(st.conn, got))
+    /\ Chk(e, "C06", "session_stays_legal", (e.kind # "method" \/ e.name \in MethodNames) /\ ConnLegal(st.conn, got))
+    /\ Chk(e, "C18", "session_stays_legal", (e.kind # "method" \/ e.name \in MethodNames) /\ ConnLegal(st.conn, got))
+    /\ Chk(e, "C20", "session_stays_legal", (e.kind # "method" \/ e.name \in MethodNames) /\ ConnLegal(st.conn, got))
+    /\ Chk(e, "C14", "session_stays_legal", (e.kind # "method" \/ e.name \in MethodNames) /\ ConnLegal(st.conn, got))
     \* the metadata a client drives the machine with
     /\ Chk(e, "C14", "session_metadata", e.kind = "method" =>
              (known /\ e.sync = Waits(e.name) /\ { e.resp[i] : i \in 1..Len(e.resp) } = Resp(e.name)))
